@@ -78,6 +78,9 @@ theorem bal_step {s s' : State} (h : BalState s) (op : Op) (hs : step s op = som
   | tick id =>
     simp only [step, Option.some.injEq] at hs; subst hs
     exact bal_flush (s := { s with clock := id }) h
+  | advance h' =>
+    simp only [step, Option.some.injEq] at hs; subst hs
+    exact h
   | restart id l en =>
     simp only [step, restart] at hs
     refine bal_new ?_ hs
